@@ -6,7 +6,9 @@ package loadaware
 
 import (
 	"context"
+	"encoding/json"
 	"fmt"
+	"os"
 	"testing"
 	"time"
 
@@ -16,12 +18,15 @@ import (
 	metav1 "k8s.io/apimachinery/pkg/apis/meta/v1"
 	"k8s.io/apimachinery/pkg/types"
 	toolscache "k8s.io/client-go/tools/cache"
+	fwktype "k8s.io/kube-scheduler/framework"
+	"k8s.io/kubernetes/pkg/scheduler/framework"
 	clocktesting "k8s.io/utils/clock/testing"
 	"k8s.io/utils/ptr"
 	"pgregory.net/rapid"
 
 	"github.com/koordinator-sh/koordinator/apis/extension"
 	slov1alpha1 "github.com/koordinator-sh/koordinator/apis/slo/v1alpha1"
+	"github.com/koordinator-sh/koordinator/pkg/scheduler/apis/config"
 	"github.com/koordinator-sh/koordinator/pkg/scheduler/plugins/loadaware/estimator"
 	"github.com/koordinator-sh/koordinator/pkg/verifkit/vk"
 )
@@ -38,6 +43,17 @@ var c08AllModes = func() []c08Mode {
 	}
 	return out
 }()
+
+// minimal framework handle for Plugin.Score (it only asks for the snapshot lister)
+type c08Handle struct {
+	fwktype.Handle
+	lister fwktype.SharedLister
+}
+
+func (h *c08Handle) SnapshotSharedLister() fwktype.SharedLister { return h.lister }
+
+// development switch: VERIF_C08_NOALIAS=1 turns the "+1 on returned vectors" aliasing detector off (to show the probes alone catch a leak)
+var c08NoAlias = os.Getenv("VERIF_C08_NOALIAS") != ""
 
 // one pod as the generator follows it through its life
 type c08Life struct {
@@ -231,6 +247,11 @@ func (s *c08State) check(c *vk.Case, t *rapid.T) bool {
 			if !c08Eq(got, want) {
 				return c.Violation(t, "drift:cache-and-fresh-ne-scratch:"+mode.kind(), "node %s mode %+v resources %v: cache and fresh cache give %v, from-scratch model %v\npods: %+v\n%s",
 					n, mode, s.env.names, got, want, views, s.dump())
+			}
+			if !c08NoAlias { // the caller owns the returned vector: writing to it must not reach the cache (the next query shows it)
+				for i := range got {
+					got[i]++
+				}
 			}
 			if mode.typ == "" && !mode.prod {
 				for _, v := range views {
@@ -630,6 +651,130 @@ func TestVerifC08Drift(t *testing.T) {
 				s.differs[node] = map[types.UID]bool{}
 				s.classes["metric-deleted"] = true
 			},
+			"probe": func(t *rapid.T) { // read-only consumers: PreFilter / Filter / Score of some incoming pod must not change what the cache keeps
+				if dead {
+					return
+				}
+				nodeName := rapid.SampledFrom(s.nodeNames).Draw(t, "node")
+				nm := s.nodes[nodeName]
+				withExtra := len(env.names) > 2
+				pa := *env.args
+				expiryOff := rapid.IntRange(0, 3).Draw(t, "probeExpiryOff") > 0
+				if expiryOff { // the fake clock lives in 2023: with expiry checks on, Filter/Score stop at "expired"
+					pa.FilterExpiredNodeMetrics, pa.NodeMetricExpirationSeconds = ptr.To(false), nil
+				}
+				pa.UsageThresholds = c08GenThresholds(t, "pUsageThr", withExtra, true)
+				pa.ProdUsageThresholds = nil
+				if rapid.Bool().Draw(t, "pHasProdThr") {
+					pa.ProdUsageThresholds = c08GenThresholds(t, "pProdThr", withExtra, true)
+				}
+				pa.Aggregated = nil
+				aggTypes := []extension.AggregationType{extension.AVG, extension.P95, extension.P99, extension.P50, ""}
+				aggDurs := []time.Duration{0, 5 * time.Minute, 10 * time.Minute, 30 * time.Minute, time.Hour}
+				if rapid.IntRange(0, 3).Draw(t, "pHasAgg") > 0 {
+					thr := c08GenThresholds(t, "pAggThr", withExtra, false)
+					if !env.anyThreshold(thr) {
+						thr = map[corev1.ResourceName]int64{corev1.ResourceCPU: 50}
+					}
+					pa.Aggregated = &config.LoadAwareSchedulingAggregatedArgs{UsageThresholds: thr,
+						UsageAggregationType:    rapid.SampledFrom(aggTypes).Draw(t, "pAggType"),
+						UsageAggregatedDuration: metav1.Duration{Duration: rapid.SampledFrom(aggDurs).Draw(t, "pAggDur")},
+						ScoreAggregationType:    rapid.SampledFrom(aggTypes).Draw(t, "pScoreAggType"),
+						ScoreAggregatedDuration: metav1.Duration{Duration: rapid.SampledFrom(aggDurs).Draw(t, "pScoreAggDur")}}
+				}
+				pa.ScoreAccordingProdUsage = rapid.Bool().Draw(t, "pScoreProd")
+				pa.ResourceWeights = map[corev1.ResourceName]int64{corev1.ResourceCPU: 1, corev1.ResourceMemory: 1}
+				pa.DominantResourceWeight = rapid.Int64Range(0, 1).Draw(t, "pDominant")
+				node := &corev1.Node{ObjectMeta: metav1.ObjectMeta{Name: nodeName, Annotations: map[string]string{}}}
+				node.Status.Allocatable = corev1.ResourceList{
+					corev1.ResourceCPU:    c08Q(corev1.ResourceCPU, rapid.SampledFrom([]int64{1000, 16000, 96000, 1000000}).Draw(t, "pAllocCPU")),
+					corev1.ResourceMemory: c08Q(corev1.ResourceMemory, rapid.SampledFrom([]int64{1 << 30, 64 << 30, 512 << 30, 64 << 40}).Draw(t, "pAllocMem")),
+					c08Extra:              c08Q(c08Extra, 1000),
+				}
+				if rapid.IntRange(0, 3).Draw(t, "pCustomAgg") == 0 {
+					g := &extension.CustomAggregatedUsage{UsageThresholds: map[corev1.ResourceName]int64{corev1.ResourceCPU: rapid.Int64Range(1, 100).Draw(t, "pcAggThr")},
+						UsageAggregationType: rapid.SampledFrom(aggTypes[:4]).Draw(t, "pcAggType")}
+					if rapid.Bool().Draw(t, "pcAggHasDur") {
+						g.UsageAggregatedDuration = &metav1.Duration{Duration: rapid.SampledFrom(aggDurs).Draw(t, "pcAggDur")}
+					}
+					b, _ := json.Marshal(&extension.CustomUsageThresholds{AggregatedUsage: g})
+					node.Annotations[extension.AnnotationCustomUsageThresholds] = string(b)
+				}
+				vec := s.cache.vectorizer
+				lister := newTestSharedLister(nil, []*corev1.Node{node})
+				pl := &Plugin{handle: &c08Handle{lister: lister}, args: &pa, vectorizer: vec, filterProfile: NewUsageThresholdsFilterProfile(&pa, vec),
+					scoreWeights: vec.ToFactorVec(pa.ResourceWeights), estimator: env.est, podAssignCache: s.cache}
+				incoming := c08GenPod(t, "incoming", "u-incoming", func(string) time.Time { return s.clock.Now() })
+				incoming.Status.Conditions = nil
+				incProd := extension.GetPodPriorityClassWithDefault(incoming) == extension.PriorityProd
+				ni, _ := lister.Get(nodeName)
+				doFilter := rapid.IntRange(0, 2).Draw(t, "pFilter") > 0
+				doScore := !doFilter || rapid.Bool().Draw(t, "pScore")
+				doPre := rapid.Bool().Draw(t, "pPreFilter")
+				reps := rapid.IntRange(1, 4).Draw(t, "pRepeat")
+				shareState := rapid.Bool().Draw(t, "pShareState")
+
+				// does this probe take the "requested aggregated usage is not reported" branch?
+				hasUsage := nm.metric != nil && nm.metric.Status.NodeMetric != nil
+				if doFilter && hasUsage && expiryOff {
+					prof := c08EffectiveProfile(&pa, node)
+					if !(env.anyThreshold(prof.prod) && incProd) && prof.agg != nil && env.anyThreshold(prof.agg.thr) &&
+						env.reportedBase(nm.metric, c08Mode{typ: prof.agg.typ, dur: prof.agg.dur}) == nil {
+						s.classes["probe-on-unreported-aggregation"] = true
+						s.classes["probe-filter-on-unreported-aggregation"] = true
+					}
+				}
+				if doScore && hasUsage && expiryOff {
+					if g := pa.Aggregated; !(pa.ScoreAccordingProdUsage && incProd) && g != nil && g.ScoreAggregationType != "" &&
+						env.reportedBase(nm.metric, c08Mode{typ: g.ScoreAggregationType, dur: g.ScoreAggregatedDuration.Duration}) == nil {
+						s.classes["probe-on-unreported-aggregation"] = true
+						s.classes["probe-score-on-unreported-aggregation"] = true
+					}
+				}
+				s.logf("probe x%d on %s (filter=%v score=%v prefilter=%v sharedState=%v) incoming est=%v class=%s; probe args: %s; node annotations=%v",
+					reps, nodeName, doFilter, doScore, doPre, shareState, env.estimate(incoming), extension.GetPodPriorityClassWithDefault(incoming), c08ArgsStr(&pa), node.Annotations)
+				var firstCode fwktype.Code
+				var firstScore int64
+				state := framework.NewCycleState()
+				for r := 0; r < reps; r++ {
+					if !shareState {
+						state = framework.NewCycleState()
+					}
+					if doPre {
+						pl.PreFilter(ctx, state, incoming, nil)
+					}
+					if doFilter {
+						s.classes["probe-filter"] = true
+						st := pl.Filter(ctx, state, incoming, ni)
+						if r == 0 {
+							firstCode = st.Code()
+						} else if st.Code() != firstCode {
+							if c.Violation(t, "probe:filter-verdict-changes-on-repeat", "Filter call %d on %s returned %v, the first call %v, nothing happened in between\n%s", r+1, nodeName, st.Code(), firstCode, s.dump()) {
+								dead = true
+							}
+							return
+						}
+					}
+					if doScore {
+						s.classes["probe-score"] = true
+						sc, st := pl.Score(ctx, state, incoming, ni)
+						if !st.IsSuccess() {
+							if c.Violation(t, "probe:score-error", "Score on %s: %v\n%s", nodeName, st.Message(), s.dump()) {
+								dead = true
+							}
+							return
+						}
+						if r == 0 {
+							firstScore = sc
+						} else if sc != firstScore {
+							if c.Violation(t, "probe:score-changes-on-repeat", "Score call %d on %s returned %d, the first call %d, nothing happened in between\n%s", r+1, nodeName, sc, firstScore, s.dump()) {
+								dead = true
+							}
+							return
+						}
+					}
+				}
+			},
 			"tick": func(t *rapid.T) {
 				if dead {
 					return
@@ -644,6 +789,7 @@ func TestVerifC08Drift(t *testing.T) {
 			},
 		}
 		actions["metric2"] = actions["metric"]
+		actions["probe2"] = actions["probe"]
 		t.Repeat(actions)
 
 		for k := range s.classes {
